@@ -277,11 +277,16 @@ class MembershipProtocol(Entity):
         if target_name is None or target_name not in self._members:
             return []
 
-        self._members[target_name]
+        info = self._members[target_name]
 
         # If we already got an ack, skip
         if target_name not in self._pending_acks:
             return []
+
+        # The direct probe went unanswered within the ack timeout: suspect the
+        # member (SWIM). The phi detector alone cannot do this for a member we
+        # have never heard from, because phi stays 0.0 until a first heartbeat.
+        self._suspect_member(info, self.now.to_seconds())
 
         # Pick random delegates (excluding self and target)
         delegates = [
